@@ -14,6 +14,10 @@ Matrices in the `QJson` dyadic encoding, rationals as `[num, den]` or an integer
 * `c09_ptr1`, `c09_hedge2_ptr1`, `c09_clone2_ptr1` `{"X"}` → `Tr_1` (after reindexing); `c09_hedge2_reindex`,
   `c09_clone2_reindex` `{"M"}`; `c09_kron_iy {"a","b","Y"}` → `1_a ⊗ Y` (tie checks of the index conventions)
 * `c09_clone_q {"m","states":[mat m×1…],"probs":[rat…]}`     → the operator `Q` of `optimal_clone`
+* `c09_rep_game         game + {"reps":n}`                  → the game stored by `ExtendedNonlocalGame(prob, pred, reps)` (`repGame`)
+* `c09_index_lists {"n"}` → `hedgeSys`, `hedgeDim`, `hedgePerm`, `cloneSys`, `clonePerm` (the lists the code builds for `n` repetitions)
+* `c09_product2 {"a","b","Q","f1":{Q,X,L,Y,Ld,LQ},"f2":{…}}` → `{"lo","hi",…}`: two-fold bracket by the product theorems
+* `c09_kron {"n1","n2","A","B"}`                              → `np.kron(A, B)` (`kronE`)
 
 The verdict is always the one of the verified checker of `Toq.Model.ExtGames`; diagnostics only word a rejection. -/
 open Lean Toq.ExtGames EMat
@@ -184,6 +188,73 @@ def hCloneQ : Handler := fun j => do
   if states.length != probs.length then return reject "length_mismatch"
   return Json.mkObj [("mat", matJson (cloneQ states probs))]
 
+/-- `ExtendedNonlocalGame(prob_mat, pred_mat, reps)`: the stored product game (`repGame`), same JSON layout as the input game -/
+def gameJson {D : Nat} (G : Game D) : Json :=
+  let probs := (List.range G.nX).flatMap fun x => (List.range G.nY).map fun y => ratJson (G.prob x y)
+  let preds := (List.range G.nA).flatMap fun a => (List.range G.nB).flatMap fun b =>
+    (List.range G.nX).flatMap fun x => (List.range G.nY).map fun y => matJson (G.pred a b x y)
+  Json.mkObj [("d", Json.num D), ("nA", Json.num G.nA), ("nB", Json.num G.nB), ("nX", Json.num G.nX), ("nY", Json.num G.nY),
+              ("prob", Json.arr probs.toArray), ("pred", Json.arr preds.toArray)]
+
+def hRepGame : Handler := fun j => do
+  let ⟨_, G⟩ ← parseGame j
+  let reps ← getNat j "reps"
+  if reps == 0 then return reject "reps_zero"
+  let ⟨_, H⟩ := repGame G (reps - 1)
+  if H.nA * H.nB * H.nX * H.nY > 5000 then return reject "too_large"
+  return gameJson H
+
+/-- `np.kron(A, B)` of two square matrices (`kronE`) -/
+def hKron : Handler := fun j => do
+  let n1 ← getNat j "n1"
+  let n2 ← getNat j "n2"
+  let A ← getEMat j "A" n1 n1
+  let B ← getEMat j "B" n2 n2
+  return Json.mkObj [("mat", matJson (kronE A B))]
+
+/-- one factor of a two-fold product instance: `Q` certified PSD (`LQ`), primal `X` (`L`), dual `Y` (`Ld`) -/
+def factor2 (a b : Nat) (f : Json) : Except String (Sum String (EMat (a * b) (a * b) × Rat × Rat)) := do
+  let Q ← getEMat f "Q" (a * b) (a * b)
+  let X ← getEMat f "X" (a * b) (a * b)
+  let L ← getEMat f "L" (a * b) (a * b)
+  let Y ← getEMat f "Y" b b
+  let Ld ← getEMat f "Ld" (a * b) (a * b)
+  let LQ ← getEMat f "LQ" (a * b) (a * b)
+  if !psdCert Q LQ then
+    return .inl ("Q_" ++ (psdWhy Q LQ).getD "psdCert_failed")
+  match checkHedgeMaxPrimal a b Q X L, checkHedgeMaxDual a b Q Y Ld with
+  | some v, some w => return .inr (Q, v, w)
+  | none, _ => return .inl (match psdWhy X L with
+      | some s => s!"X_{s}"
+      | none => if !Q.isHermitian then "Q_not_hermitian" else "partial_trace_not_identity")
+  | _, none => return .inl (if !Y.isHermitian then "Y_not_hermitian" else
+      match psdWhy (kronIY a Y - Q) Ld with
+      | some s => s!"slack_{s}"
+      | none => "rejected")
+
+/-- two repetitions through the product theorems (`hedge2_product_bracket` for `a = b = 2`, `clone2_product_bracket` for `a = 4`,
+    `b = 2`): both factors certified by the single-shot checkers, `Q` (toqito's array) must be `np.kron(Q₁, Q₂)` exactly;
+    returns the bracket `[v₁ v₂, w₁ w₂]` of the two-fold maximum -/
+def hProduct2 : Handler := fun j => do
+  let a ← getNat j "a"
+  let b ← getNat j "b"
+  let Q ← getEMat j "Q" ((a * b) * (a * b)) ((a * b) * (a * b))
+  let f1 ← factor2 a b (← j.getObjVal? "f1")
+  let f2 ← factor2 a b (← j.getObjVal? "f2")
+  match f1, f2 with
+  | .inl s, _ => return reject s!"factor1_{s}"
+  | _, .inl s => return reject s!"factor2_{s}"
+  | .inr (Q1, v1, w1), .inr (Q2, v2, w2) =>
+    if !(kronE Q1 Q2).beq Q then return reject "Q_is_not_kron_Q1_Q2"
+    return Json.mkObj [("lo", ratJson (v1 * v2)), ("hi", ratJson (w1 * w2)),
+      ("v", Json.arr #[ratJson v1, ratJson v2]), ("w", Json.arr #[ratJson w1, ratJson w2])]
+
+/-- the index lists of `QuantumHedging.__init__` / `optimal_clone` for `n` repetitions -/
+def hIndexLists : Handler := fun j => do
+  let n ← getNat j "n"
+  return Json.mkObj [("hedge_sys", natListJson (hedgeSys n)), ("hedge_dim", natListJson (hedgeDim n)),
+    ("hedge_perm", natListJson (hedgePerm n)), ("clone_sys", natListJson (cloneSys n)), ("clone_perm", natListJson (clonePerm n))]
+
 def handlers : List (String × Handler) :=
   [("c09_avgop", hAvgOp), ("c09_unent_lower", hUnentLower), ("c09_unent_upper", hUnentUpper),
    ("c09_unent_const_lower", hUnentConstLower), ("c09_unent_const_upper", hUnentConstUpper),
@@ -198,6 +269,8 @@ def handlers : List (String × Handler) :=
    ("c09_clone_q", hCloneQ),
    ("c09_ptr1", withAB fun a b => hPtr1 a b none), ("c09_hedge2_ptr1", hPtr1 4 4 (some hedgeSigma2)),
    ("c09_clone2_ptr1", hPtr1 16 4 (some cloneSigma2)), ("c09_hedge2_reindex", hReindex (4 * 4) hedgeSigma2),
-   ("c09_clone2_reindex", hReindex (16 * 4) cloneSigma2), ("c09_kron_iy", hKronIY)]
+   ("c09_clone2_reindex", hReindex (16 * 4) cloneSigma2), ("c09_kron_iy", hKronIY),
+   ("c09_rep_game", hRepGame), ("c09_kron", hKron), ("c09_index_lists", hIndexLists),
+   ("c09_product2", hProduct2)]
 
 end Toq.Driver.C09
